@@ -497,6 +497,7 @@ Example C05_smallest_minimum_ruledb_value :
   get_smallest_node aq_pd 0 [aq_run] = Some (Node 0 [Node 2 [Node 1 []]]).
 Proof. split; vm_compute; reflexivity. Qed.
 
+
 (* ================= the per-rule tests are the source's (translator) =================
    prune removes a rule exactly when the source's test
    `any(x not in rdict for x in rule)` holds, and iterative_prune / the iterative
@@ -538,6 +539,469 @@ Theorem C05_finder_test_is_source : forall root k s r,
   else s.
 Proof. exact iter_rule_is_source_finder. Qed.
 
+From Coq Require Import Relations.
+From CSS Require Import Equiv.Model Equiv.Ref Equiv.UF Equiv.Hist Equiv.Total Equiv.Neutral.
+From CSS Require Import Tree.WithEquiv Tree.WithEquivProofs Tree.WithEquivInv Tree.WithEquivHist
+  Tree.WithEquivCache Tree.Kernel.
+
+(* =====================================================================================
+   8. RuleDBBase AS IT COMPOSES its rule keys, the EquivalenceDB and the `_pruned_dict` cache
+   (model Tree/WithEquiv.v; the equivalence database is the C06 model Equiv/Model.v).
+
+   In the theorems 3 and 4 above the representative function `rep` is a FREE parameter.  Here
+   it is not: `cexec order root_label iterative rinit h = Some (x, answers)` says that x is the
+   state of a fresh RuleDB after the history h of public operations
+       CAdd start ends ver tw | CHasSpec | CIsVerified l | CRue | CNode smallest runs listed | CDrop
+   and every `self.equivdb[l]` of the source is a `find` on the union-find state of x.
+   `repf s l` is the label `find s l` returns.  `cedge h a b`: some add of h recorded the
+   unary rule a -> (b), or a two-way unary rule b -> (a) (a <> b); `hkeys h` = list(self).
+   `scc_rep E rep` : rep a = rep b  <->  a and b are mutually reachable along E.
+   `order` is the iteration order of sets of ints (as in C06): any order that enumerates the
+   elements, each once. *)
+Section C05_composed.
+Variable order : list Z -> list Z.
+Hypothesis order_In : forall l x, In x (order l) <-> In x l. (* in-section *)
+Hypothesis order_len : forall l, (length (order l) <= length l)%nat. (* in-section *)
+Variable root_label : Z.
+Variable iterative : bool.
+
+Notation cexec := (cexec order root_label iterative).
+Notation c_rue := (c_rue order).
+Notation c_pruned_dict := (c_pruned_dict order root_label iterative).
+Notation c_has_spec := (c_has_spec order root_label iterative).
+Notation c_node := (c_node order root_label iterative).
+
+(* (b) totality: every history of public operations runs through (no loop of the equivalence
+   database or of the pruning out of fuel, no internal KeyError): C06 totality + C05
+   termination; in particular has_specification ALWAYS answers *)
+Theorem C05_composed_total : forall ops, cexec rinit ops <> None.
+Proof.
+  intros ops. destruct (cexec_total order order_len root_label iterative ops rinit wf_init) as (x & a & ->).
+  discriminate.
+Qed.
+
+Theorem C05_has_specification_total : forall h x ans,
+  cexec rinit h = Some (x, ans) -> exists x' b, c_has_spec x = Some (x', b).
+Proof.
+  intros h x ans H.
+  pose proof (reachable_Good order order_In order_len root_label iterative h x ans H) as G.
+  destruct (c_has_spec_total order order_len root_label iterative x) as (x' & b & E & _); eauto.
+  eapply Inv2_wf; eauto.
+Qed.
+
+(* (a) at the moment rules_up_to_equivalence reads the representatives (right after its
+   connect_cycles; whatever happened before: earlier has_specification runs with their
+   set_verified calls, lookups, earlier cycle detections), two labels have the same
+   representative iff they are mutually reachable along the unary rules recorded by add,
+   and the dictionary it returns is Tree/Model.v's pure rules_up_to_equivalence at that
+   representative function *)
+Theorem C05_rep_is_scc : forall h x ans x' rd,
+  cexec rinit h = Some (x, ans) -> c_rue x = Some (x', rd) ->
+  let rep := repf (r_eq x') in
+  (forall l, root (r_eq x') l (rep l)) /\ scc_rep (cedge h) rep /\
+  rd = rules_up_to_equivalence rep (hkeys h).
+Proof.
+  intros h x ans x' rd H R.
+  pose proof (reachable_Good order order_In order_len root_label iterative h x ans H) as G.
+  destruct (c_rue_Inv2 order order_In order_len root_label iterative _ _ x x' rd G R) as (I' & E & S).
+  split; [intros l; apply repf_root; eapply Inv2_wf; eauto|]. split; auto.
+Qed.
+
+(* has_specification (recomputing, or answering from the cache any number of operations
+   later): the answer is Tree/Model.v's has_specification at the representative function of
+   the state in which it reads the root, and that function names exactly the strongly
+   connected components of the recorded unary rules.  So C05_has_spec_recursive /
+   C05_has_spec_iterative hold with "equivalent" = "same strongly connected component" *)
+Theorem C05_has_spec_scc : forall h x ans x' b,
+  cexec rinit h = Some (x, ans) -> c_has_spec x = Some (x', b) ->
+  let rep := repf (r_eq x') in
+  (forall l, root (r_eq x') l (rep l)) /\ scc_rep (cedge h) rep /\
+  Tree.Model.has_specification rep (hkeys h) root_label iterative = Some b.
+Proof.
+  intros h x ans x' b H R.
+  pose proof (reachable_Good order order_In order_len root_label iterative h x ans H) as G.
+  destruct (c_has_spec_spec order order_In order_len root_label iterative _ _ x x' b G R)
+    as (I' & _ & S & E).
+  split; [intros l; apply repf_root; eapply Inv2_wf; eauto|]. split; auto.
+Qed.
+
+Theorem C05_has_spec_recursive_scc : forall h x ans x' b,
+  iterative = false ->
+  cexec rinit h = Some (x, ans) -> c_has_spec x = Some (x', b) ->
+  exists rep, scc_rep (cedge h) rep /\
+    (b = true <-> gfp (rules_up_to_equivalence rep (hkeys h)) (rep root_label)).
+Proof.
+  intros h x ans x' b Hi H R. exists (repf (r_eq x')).
+  destruct (C05_has_spec_scc h x ans x' b H R) as (_ & S & E). split; auto.
+  rewrite Hi in E. destruct (C05_has_spec_recursive (repf (r_eq x')) (hkeys h) root_label) as (b' & E' & Hb).
+  rewrite E in E'. inversion E'; subst b'. exact Hb.
+Qed.
+
+Theorem C05_has_spec_iterative_scc : forall h x ans x' b,
+  iterative = true ->
+  cexec rinit h = Some (x, ans) -> c_has_spec x = Some (x', b) ->
+  exists rep, scc_rep (cedge h) rep /\
+    (b = true <-> ikey (rules_up_to_equivalence rep (hkeys h)) (Some (rep root_label)) (rep root_label)).
+Proof.
+  intros h x ans x' b Hi H R. exists (repf (r_eq x')).
+  destruct (C05_has_spec_scc h x ans x' b H R) as (_ & S & E). split; auto.
+  rewrite Hi in E. destruct (C05_has_spec_iterative (repf (r_eq x')) (hkeys h) root_label) as (b' & E' & Hb).
+  rewrite E in E'. inversion E'; subst b'. exact Hb.
+Qed.
+
+(* (b) the finders after has_specification.  `_get_specification_node` raises
+   SpecificationNotFound exactly when has_specification() answers False; when it answers
+   True: the iterative finder returns a tree (no ValueError, no KeyError: NFinder impossible),
+   valid for the cached pruned dictionary and rooted at the root's representative; smallish /
+   smallest return a valid tree (smallest: of minimum size) unless the oracle is not a
+   possible run of random (NNoRun, then smallish_random_proof_tree itself is None);
+   InvalidOperationError only for iterative + smallest.  `node_ok` is that case analysis. *)
+Theorem C05_finder_total_after_has_specification : forall h x ans x1 sm runs listed x2 r,
+  cexec rinit h = Some (x, ans) -> c_has_spec x = Some (x1, true) ->
+  c_node x1 sm runs listed = Some (x2, r) ->
+  exists pd, r_cache x1 = Some pd /\
+    node_ok iterative pd (repf (r_eq x1) root_label) sm runs listed r.
+Proof.
+  intros h x ans x1 sm runs listed x2 r H HS N.
+  pose proof (reachable_Good order order_In order_len root_label iterative h x ans H) as G.
+  destruct (c_has_spec_spec order order_In order_len root_label iterative _ _ x x1 true G HS)
+    as (I1 & (pd & C1 & Eb) & _).
+  exists pd. split; auto.
+  assert (Ht : Hot root_label pd x1) by (split; auto).
+  destruct (c_node_hot order order_In order_len root_label iterative _ _ pd x1 sm runs listed x2 r I1 Ht N)
+    as (_ & _ & OK). exact OK.
+Qed.
+
+Theorem C05_node_not_found_iff_no_specification : forall h x ans sm runs listed x2 r,
+  cexec rinit h = Some (x, ans) -> c_node x sm runs listed = Some (x2, r) ->
+  exists x1 b, c_has_spec x = Some (x1, b) /\ (r = NNotFound <-> b = false) /\
+    (b = true -> exists pd, r_cache x1 = Some pd /\
+                  node_ok iterative pd (repf (r_eq x1) root_label) sm runs listed r).
+Proof.
+  intros h x ans sm runs listed x2 r H N.
+  pose proof (reachable_Good order order_In order_len root_label iterative h x ans H) as G.
+  destruct (c_node_spec order order_In order_len root_label iterative _ _ x sm runs listed x2 r G N)
+    as (_ & x1 & b & HS & Hb).
+  exists x1, b. split; auto. destruct b.
+  - destruct Hb as (pd & (C1 & HK) & OK). split.
+    + split; [|discriminate]. intros ->. destruct OK.
+    + intros _. exists pd. auto.
+  - destruct Hb as (-> & _). split; [tauto|discriminate].
+Qed.
+
+(* (c) the labels pruned_dict marks verified are exactly the classes of the fixed point:
+   after a has_specification that recomputes, a label is verified iff its class contains a
+   label that was verified before (verification rules, earlier runs: marks are never
+   withdrawn) or its representative is a key of the pruned dictionary, which is Tree/Model.v's
+   pruned_dict at the representatives (keys = greatest fixed point / bottom-up derivable:
+   C05_prune_gfp, C05_iterative_lfp through pruned_key_char below) *)
+Theorem C05_verified_marks_sound : forall h x ans x' b,
+  cexec rinit h = Some (x, ans) -> r_cache x = None -> c_has_spec x = Some (x', b) ->
+  exists pd, r_cache x' = Some pd /\
+    Tree.Model.pruned_dict (repf (r_eq x')) (hkeys h) root_label iterative = Some pd /\
+    (forall l, c_ver x' l = true <->
+       (exists b0, c_ver x b0 = true /\ same (r_eq x') l b0) \/
+       has_key pd (repf (r_eq x') l) = true).
+Proof.
+  intros h x ans x' b H HC R.
+  pose proof (reachable_Good order order_In order_len root_label iterative h x ans H) as G.
+  exact (recompute_marks order order_In order_len root_label iterative _ _ x x' b G HC R).
+Qed.
+
+Theorem C05_pruned_keys_are_fixed_point : forall rep rules rt it pd,
+  Tree.Model.pruned_dict rep rules rt it = Some pd ->
+  forall k, has_key pd k = true <->
+    if it then ikey (rules_up_to_equivalence rep rules) (Some (rep rt)) k
+    else gfp (rules_up_to_equivalence rep rules) k.
+Proof. exact pruned_key_char. Qed.
+
+(* is_verified answers c_ver *)
+Theorem C05_is_verified_answer : forall h x ans l x' v,
+  cexec rinit h = Some (x, ans) -> c_is_verified x l = Some (x', v) -> v = c_ver x l.
+Proof.
+  intros h x ans l x' v H R.
+  pose proof (reachable_Good order order_In order_len root_label iterative h x ans H) as G.
+  exact (proj2 (c_is_verified_Inv2 order order_In order_len root_label iterative _ _ x l x' v G R)).
+Qed.
+
+(* (d) recompute_idem (the premise of Searcher/Cache.v) is a THEOREM of the composed model:
+   recomputing the pruned dictionary while the cache is valid (i.e. twice without an add in
+   between) gives the same dictionary and leaves every root, every recorded edge and the
+   set of verified roots of the equivalence database as they are *)
+Theorem C05_recompute_idem : forall h x ans pd x2 pd2,
+  cexec rinit h = Some (x, ans) -> r_cache x = Some pd ->
+  c_pruned_dict (mkR (r_eq x) (r_rules x) (r_eqv x) None) = Some (x2, pd2) ->
+  pd2 = pd /\
+  (forall l q, root (r_eq x2) l q <-> root (r_eq x) l q) /\
+  (forall v, In v (verified (r_eq x2)) <-> In v (verified (r_eq x))) /\
+  (forall a b, edge (vertices (r_eq x2)) a b <-> edge (vertices (r_eq x)) a b).
+Proof.
+  intros h x ans pd x2 pd2 H HC R.
+  pose proof (reachable_Good order order_In order_len root_label iterative h x ans H) as G.
+  destruct (recompute_idem order order_In order_len root_label iterative _ _ x pd x2 pd2 G HC R)
+    as (E & (A & B) & V).
+  split; auto. split; auto. split; auto. intros a b. unfold edge. rewrite B. tauto.
+Qed.
+
+(* the cache is transparent: two histories that differ only in where the cache was thrown
+   away (CDrop; every add invalidates it anyway) give the same answers — Booleans literally;
+   of a node request whether it found a specification / raised InvalidOperationError —, the
+   same partition into classes and the same verified labels.  (Roots may differ: an extra
+   recomputation re-keys the one-way table.) *)
+Theorem C05_pruned_dict_cache_transparent : forall ops1 ops2 x y a1 a2,
+  filter (fun o => negb (is_drop o)) ops1 = filter (fun o => negb (is_drop o)) ops2 ->
+  cexec rinit ops1 = Some (x, a1) -> cexec rinit ops2 = Some (y, a2) ->
+  map proj (vis ops1 a1) = map proj (vis ops2 a2) /\
+  (forall a b, same (r_eq x) a b <-> same (r_eq y) a b) /\
+  (forall l, c_ver x l = c_ver y l).
+Proof.
+  intros ops1 ops2 x y a1 a2 F H1 H2.
+  assert (S0 : Sim order root_label iterative (cedge []) (kstate []) rinit rinit).
+  { split; [apply Good_init|]. split; [apply Good_init|]. split; [intros a b; reflexivity|intros l; reflexivity]. }
+  destruct (cache_transparent_gen order order_In order_len root_label iterative
+              ops1 ops2 _ _ rinit rinit x y a1 a2 S0 F H1 H2) as (A & E' & K' & (_ & _ & P & V)).
+  auto.
+Qed.
+
+(* in particular: never caching (dropping before every operation) changes no answer *)
+Definition never_cache (ops : list cop) : list cop := flat_map (fun o => [CDrop; o]) ops.
+
+Theorem C05_never_caching_same_answers : forall ops x y a1 a2,
+  Forall (fun o => is_drop o = false) ops ->
+  cexec rinit ops = Some (x, a1) -> cexec rinit (never_cache ops) = Some (y, a2) ->
+  map proj a1 = map proj (vis (never_cache ops) a2) /\
+  (forall a b, same (r_eq x) a b <-> same (r_eq y) a b) /\
+  (forall l, c_ver x l = c_ver y l).
+Proof.
+  intros ops x y a1 a2 F H1 H2.
+  assert (Ff : filter (fun o => negb (is_drop o)) ops = filter (fun o => negb (is_drop o)) (never_cache ops)).
+  { clear H1 H2. induction ops as [|o ops IH]; [reflexivity|]. inversion F; subst.
+    simpl. rewrite H1. simpl. f_equal. auto. }
+  destruct (C05_pruned_dict_cache_transparent ops (never_cache ops) x y a1 a2 Ff H1 H2) as (A & P & V).
+  split; auto. rewrite <- A. f_equal.
+  clear - F H1. revert x a1 H1. generalize rinit. induction ops as [|o ops IH]; intros x0 x a1 H1; simpl in H1.
+  - inversion H1; reflexivity.
+  - inversion F; subst.
+    destruct (WithEquiv.cstep order root_label iterative x0 o) as [[x1 a]|]; [|discriminate].
+    destruct (cexec x1 ops) as [[x2 rest]|] eqn:Ex; [|discriminate]. inversion H1; subst.
+    simpl. rewrite H2. f_equal. eapply IH; eauto.
+Qed.
+
+End C05_composed.
+
+(* ---------------------------------------------------------------- applied examples
+   ac_h : a history of a recursive RuleDB with start label 0.  0 -> 1 -> 2 one-way, a query
+   (False), 2 -> 0 closes the cycle (class {0,1,2}, representative 2 <> start label), the
+   rule 1 -> (4,3), a verification rule for 3, the two-way rule 4 <-> 5, 5 -> (), a query
+   (True, recomputes), is_verified(2), a query answered from the cache. *)
+Definition ac_h0 : list cop :=
+  [CAdd 0 [1] false false; CAdd 1 [2] false false; CHasSpec; CAdd 2 [0] false false;
+   CAdd 1 [4; 3] false false; CAdd 3 [] true false; CAdd 4 [5] false true; CAdd 5 [] false false].
+Definition ac_h : list cop := ac_h0 ++ [CHasSpec; CIsVerified 2; CHasSpec].
+Definition ac_run (it : bool) (h : list cop) : rdb * list cans :=
+  match cexec isort 0 it rinit h with Some p => p | None => (rinit, []) end.
+Definition ac_x0 : rdb := Eval vm_compute in fst (ac_run false ac_h0).
+Definition ac_a0 : list cans := Eval vm_compute in snd (ac_run false ac_h0).
+Definition ac_x : rdb := Eval vm_compute in fst (ac_run false ac_h).
+Definition ac_a : list cans := Eval vm_compute in snd (ac_run false ac_h).
+Lemma ac_exec0 : cexec isort 0 false rinit ac_h0 = Some (ac_x0, ac_a0).
+Proof. vm_compute. reflexivity. Qed.
+Lemma ac_exec : cexec isort 0 false rinit ac_h = Some (ac_x, ac_a).
+Proof. vm_compute. reflexivity. Qed.
+Definition ac_pd : rdict := [(2, [[3; 5]]); (3, [[]]); (5, [[]])].
+Definition ac_runs : list (list choice) := [[([3; 5], [5; 3]); ([], []); ([], [])]].
+
+Example C05_composed_values :
+  ac_a = [ANone; ANone; ABool false; ANone; ANone; ANone; ANone; ANone; ABool true; ABool true; ABool true] /\
+  r_cache ac_x = Some ac_pd /\ r_cache ac_x0 = None /\
+  map (c_rep ac_x) [0; 1; 2; 3; 4; 5] = [2; 2; 2; 3; 5; 5] /\
+  filter (c_ver ac_x) [0; 1; 2; 3; 4; 5] = [0; 1; 2; 3; 4; 5] /\
+  filter (c_ver ac_x0) [0; 1; 2; 3; 4; 5] = [3] /\
+  hkeys ac_h = [(0, [1]); (1, [2]); (2, [0]); (1, [3; 4]); (3, []); (5, []); (4, [5])].
+Proof. vm_compute. repeat split. Qed.
+
+Example C05_composed_total_nonvacuous : cexec isort 0 false rinit ac_h <> None.
+Proof. exact (C05_composed_total isort isort_len 0 false ac_h). Qed.
+
+Example C05_has_specification_total_nonvacuous :
+  exists x' b, c_has_spec isort 0 false ac_x0 = Some (x', b).
+Proof. exact (C05_has_specification_total isort isort_In isort_len 0 false ac_h0 ac_x0 ac_a0 ac_exec0). Qed.
+
+(* rules_up_to_equivalence after ac_h0: 0 and 2 are in one component, 0 and 4 are not *)
+Example C05_rep_is_scc_nonvacuous :
+  exists x' rd, c_rue isort ac_x0 = Some (x', rd) /\
+    scc_rep (cedge ac_h0) (repf (r_eq x')) /\
+    rd = rules_up_to_equivalence (repf (r_eq x')) (hkeys ac_h0) /\
+    repf (r_eq x') 0 = repf (r_eq x') 2 /\ repf (r_eq x') 0 <> repf (r_eq x') 4 /\
+    rd = [(2, [[3; 5]]); (3, [[]]); (5, [[]])].
+Proof.
+  destruct (c_rue isort ac_x0) as [[x' rd]|] eqn:R; [|vm_compute in R; discriminate R].
+  exists x', rd. split; auto.
+  destruct (C05_rep_is_scc isort isort_In isort_len 0 false ac_h0 ac_x0 ac_a0 x' rd ac_exec0 R) as (_ & S & E).
+  split; auto. split; auto. vm_compute in R. inversion R; subst. vm_compute. repeat split; discriminate.
+Qed.
+(* hence, through the theorem: 0 and 2 are mutually reachable along the recorded unary rules *)
+Example C05_rep_is_scc_value :
+  clos_refl_trans Z (cedge ac_h0) 0 2 /\ clos_refl_trans Z (cedge ac_h0) 2 0.
+Proof.
+  destruct C05_rep_is_scc_nonvacuous as (x' & rd & _ & S & _ & E & _). apply (S 0 2). exact E.
+Qed.
+
+(* has_specification answered from the cache (third query of ac_h) *)
+Example C05_has_spec_scc_nonvacuous :
+  exists x' rep, c_has_spec isort 0 false ac_x = Some (x', true) /\
+    scc_rep (cedge ac_h) rep /\ rep 0 = 2 /\
+    Tree.Model.has_specification rep (hkeys ac_h) 0 false = Some true /\
+    (true = true <-> gfp (rules_up_to_equivalence rep (hkeys ac_h)) (rep 0)).
+Proof.
+  destruct (c_has_spec isort 0 false ac_x) as [[x' b]|] eqn:R; [|vm_compute in R; discriminate R].
+  assert (b = true) by (vm_compute in R; inversion R; reflexivity). subst b.
+  exists x', (repf (r_eq x')). split; auto.
+  destruct (C05_has_spec_scc isort isort_In isort_len 0 false ac_h ac_x ac_a x' true ac_exec R) as (_ & S & E).
+  split; auto. split; [vm_compute in R; inversion R; subst; vm_compute; reflexivity|]. split; auto.
+  destruct (C05_has_spec_recursive (repf (r_eq x')) (hkeys ac_h) 0) as (b' & E' & Hb).
+  rewrite E in E'. inversion E'; subst b'. exact Hb.
+Qed.
+
+Example C05_has_spec_recursive_scc_nonvacuous :
+  forall x' b, c_has_spec isort 0 false ac_x = Some (x', b) ->
+  exists rep, scc_rep (cedge ac_h) rep /\
+    (b = true <-> gfp (rules_up_to_equivalence rep (hkeys ac_h)) (rep 0)).
+Proof.
+  intros x' b. exact (C05_has_spec_recursive_scc isort isort_In isort_len 0 false ac_h ac_x ac_a x' b eq_refl ac_exec).
+Qed.
+
+(* an iterative database: 0 -> 1 -> 2 -> 0 one-way cycle, 1 -> (4, 0) recursing to the start class *)
+Definition ai_h : list cop :=
+  [CAdd 0 [1] false false; CAdd 1 [2] false false; CHasSpec; CAdd 2 [0] false false;
+   CAdd 1 [4; 0] false false; CAdd 4 [5] false true; CAdd 5 [] false false].
+Definition ai_x : rdb := Eval vm_compute in fst (ac_run true ai_h).
+Definition ai_a : list cans := Eval vm_compute in snd (ac_run true ai_h).
+Lemma ai_exec : cexec isort 0 true rinit ai_h = Some (ai_x, ai_a).
+Proof. vm_compute. reflexivity. Qed.
+
+Example C05_has_spec_iterative_scc_nonvacuous :
+  forall x' b, c_has_spec isort 0 true ai_x = Some (x', b) ->
+  exists rep, scc_rep (cedge ai_h) rep /\
+    (b = true <-> ikey (rules_up_to_equivalence rep (hkeys ai_h)) (Some (rep 0)) (rep 0)).
+Proof.
+  intros x' b. exact (C05_has_spec_iterative_scc isort isort_In isort_len 0 true ai_h ai_x ai_a x' b eq_refl ai_exec).
+Qed.
+Example C05_has_spec_iterative_scc_value :
+  exists x', c_has_spec isort 0 true ai_x = Some (x', true) /\
+             r_cache x' = Some [(5, [[]]); (2, [[2; 5]])].
+Proof. eexists. split; vm_compute; reflexivity. Qed.
+
+(* the finders: smallest on the recursive database, the iterative finder on the iterative one *)
+Example C05_finder_total_after_has_specification_nonvacuous :
+  exists x1 x2, c_has_spec isort 0 false ac_x = Some (x1, true) /\
+    c_node isort 0 false x1 true ac_runs [] = Some (x2, NTree (Node 2 [Node 5 []; Node 3 []])) /\
+    exists pd, r_cache x1 = Some pd /\
+      node_ok false pd (repf (r_eq x1) 0) true ac_runs [] (NTree (Node 2 [Node 5 []; Node 3 []])).
+Proof.
+  eexists _, _. split; [vm_compute; reflexivity|]. split; [vm_compute; reflexivity|].
+  eapply (C05_finder_total_after_has_specification isort isort_In isort_len 0 false ac_h ac_x ac_a _ true ac_runs []);
+    [exact ac_exec|vm_compute; reflexivity|vm_compute; reflexivity].
+Qed.
+
+Example C05_finder_total_iterative_nonvacuous :
+  exists x1 x2 t, c_has_spec isort 0 true ai_x = Some (x1, true) /\
+    c_node isort 0 true x1 false [] [(2, [[2; 5]]); (5, [[]])] = Some (x2, NTree t) /\
+    t = Node 2 [Node 2 []; Node 5 []] /\
+    exists pd, r_cache x1 = Some pd /\
+      node_ok true pd (repf (r_eq x1) 0) false [] [(2, [[2; 5]]); (5, [[]])] (NTree t).
+Proof.
+  eexists _, _, _. split; [vm_compute; reflexivity|]. split; [vm_compute; reflexivity|]. split; [reflexivity|].
+  eapply (C05_finder_total_after_has_specification isort isort_In isort_len 0 true ai_h ai_x ai_a _ false []);
+    [exact ai_exec|vm_compute; reflexivity|vm_compute; reflexivity].
+Qed.
+
+(* before any unit rule: SpecificationNotFound, and has_specification is False *)
+Example C05_node_not_found_iff_no_specification_nonvacuous :
+  let h := [CAdd 0 [1] false false; CAdd 1 [2] false false] in
+  exists x ans x2, cexec isort 0 false rinit h = Some (x, ans) /\
+    c_node isort 0 false x false [] [] = Some (x2, NNotFound) /\
+    exists x1 b, c_has_spec isort 0 false x = Some (x1, b) /\ (NNotFound = NNotFound <-> b = false) /\
+      (b = true -> exists pd, r_cache x1 = Some pd /\
+                     node_ok false pd (repf (r_eq x1) 0) false [] [] NNotFound).
+Proof.
+  eexists _, _, _. split; [vm_compute; reflexivity|]. split; [vm_compute; reflexivity|].
+  eapply (C05_node_not_found_iff_no_specification isort isort_In isort_len 0 false
+            [CAdd 0 [1] false false; CAdd 1 [2] false false]); vm_compute; reflexivity.
+Qed.
+
+(* the marks of the recomputation at the end of ac_h0: before only 3 is verified (its
+   verification rule); afterwards every label whose class is in the fixed point *)
+Example C05_verified_marks_sound_nonvacuous :
+  exists x' pd, c_has_spec isort 0 false ac_x0 = Some (x', true) /\ r_cache x' = Some pd /\
+    Tree.Model.pruned_dict (repf (r_eq x')) (hkeys ac_h0) 0 false = Some pd /\
+    (forall l, c_ver x' l = true <->
+       (exists b0, c_ver ac_x0 b0 = true /\ same (r_eq x') l b0) \/
+       has_key pd (repf (r_eq x') l) = true).
+Proof.
+  destruct (c_has_spec isort 0 false ac_x0) as [[x' b]|] eqn:R; [|vm_compute in R; discriminate R].
+  assert (b = true) by (vm_compute in R; inversion R; reflexivity). subst b.
+  destruct (C05_verified_marks_sound isort isort_In isort_len 0 false ac_h0 ac_x0 ac_a0 x' true ac_exec0 eq_refl R)
+    as (pd & C & PD & V).
+  exists x', pd. auto.
+Qed.
+
+Example C05_pruned_keys_are_fixed_point_nonvacuous :
+  forall k, has_key ac_pd k = true <->
+    gfp (rules_up_to_equivalence (c_rep ac_x) (hkeys ac_h)) k.
+Proof.
+  apply (C05_pruned_keys_are_fixed_point (c_rep ac_x) (hkeys ac_h) 0 false ac_pd). vm_compute. reflexivity.
+Qed.
+
+Example C05_is_verified_answer_nonvacuous :
+  forall x' v, c_is_verified ac_x 1 = Some (x', v) -> v = c_ver ac_x 1.
+Proof. intros x' v. exact (C05_is_verified_answer isort isort_In isort_len 0 false ac_h ac_x ac_a 1 x' v ac_exec). Qed.
+
+Example C05_recompute_idem_nonvacuous :
+  exists x2, c_pruned_dict isort 0 false (mkR (r_eq ac_x) (r_rules ac_x) (r_eqv ac_x) None) = Some (x2, ac_pd) /\
+    r_eq x2 <> r_eq ac_x /\
+    (forall l q, root (r_eq x2) l q <-> root (r_eq ac_x) l q) /\
+    (forall v, In v (verified (r_eq x2)) <-> In v (verified (r_eq ac_x))) /\
+    (forall a b, edge (vertices (r_eq x2)) a b <-> edge (vertices (r_eq ac_x)) a b).
+Proof.
+  destruct (c_pruned_dict isort 0 false (mkR (r_eq ac_x) (r_rules ac_x) (r_eqv ac_x) None)) as [[x2 pd2]|] eqn:R;
+    [|vm_compute in R; discriminate R].
+  destruct (C05_recompute_idem isort isort_In isort_len 0 false ac_h ac_x ac_a ac_pd x2 pd2 ac_exec eq_refl R)
+    as (-> & A & V & Ed).
+  exists x2. split; auto. split; auto.
+  vm_compute in R. inversion R; subst. intros D. apply (f_equal oneway) in D. vm_compute in D. discriminate D.
+Qed.
+
+(* the cache: ac_h with the cache dropped before each of the last two queries *)
+Definition ac_h' : list cop := ac_h0 ++ [CHasSpec; CDrop; CIsVerified 2; CDrop; CHasSpec].
+Example C05_pruned_dict_cache_transparent_nonvacuous :
+  exists y a2, cexec isort 0 false rinit ac_h' = Some (y, a2) /\
+    map proj (vis ac_h ac_a) = map proj (vis ac_h' a2) /\
+    (forall a b, same (r_eq ac_x) a b <-> same (r_eq y) a b) /\
+    (forall l, c_ver ac_x l = c_ver y l) /\
+    r_eq y <> r_eq ac_x.
+Proof.
+  destruct (cexec isort 0 false rinit ac_h') as [[y a2]|] eqn:R; [|vm_compute in R; discriminate R].
+  exists y, a2. split; auto.
+  destruct (C05_pruned_dict_cache_transparent isort isort_In isort_len 0 false ac_h ac_h' ac_x y ac_a a2
+              eq_refl ac_exec R) as (A & P & V).
+  split; auto. split; auto. split; auto.
+  vm_compute in R. inversion R; subst. intros D. apply (f_equal oneway) in D. vm_compute in D. discriminate D.
+Qed.
+
+Example C05_never_caching_same_answers_nonvacuous :
+  exists y a2, cexec isort 0 false rinit (never_cache ac_h) = Some (y, a2) /\
+    map proj ac_a = map proj (vis (never_cache ac_h) a2) /\
+    (forall a b, same (r_eq ac_x) a b <-> same (r_eq y) a b) /\
+    (forall l, c_ver ac_x l = c_ver y l).
+Proof.
+  destruct (cexec isort 0 false rinit (never_cache ac_h)) as [[y a2]|] eqn:R; [|vm_compute in R; discriminate R].
+  exists y, a2. split; auto.
+  apply (C05_never_caching_same_answers isort isort_In isort_len 0 false ac_h ac_x y ac_a a2); auto.
+  repeat constructor.
+Qed.
+
+
 Print Assumptions C05_prune_gfp.
 Print Assumptions C05_prune_terminates.
 Print Assumptions C05_prune_refuted_on_empty_ruleset.
@@ -562,3 +1026,17 @@ Print Assumptions C05_bfs_generator_refuted.
 Print Assumptions C05_prune_test_is_source.
 Print Assumptions C05_iterative_test_is_source.
 Print Assumptions C05_finder_test_is_source.
+Print Assumptions C05_composed_total.
+Print Assumptions C05_has_specification_total.
+Print Assumptions C05_rep_is_scc.
+Print Assumptions C05_has_spec_scc.
+Print Assumptions C05_has_spec_recursive_scc.
+Print Assumptions C05_has_spec_iterative_scc.
+Print Assumptions C05_finder_total_after_has_specification.
+Print Assumptions C05_node_not_found_iff_no_specification.
+Print Assumptions C05_verified_marks_sound.
+Print Assumptions C05_pruned_keys_are_fixed_point.
+Print Assumptions C05_is_verified_answer.
+Print Assumptions C05_recompute_idem.
+Print Assumptions C05_pruned_dict_cache_transparent.
+Print Assumptions C05_never_caching_same_answers.
